@@ -676,10 +676,9 @@ func (s *Store) openCollection(
 			return nil, erro
 		}
 
-		if storeSnapshotInit != nil {
-			storeSnapshotInit.Close()
-			storeSnapshotInit = nil
-		}
+		// The reference on storeSnapshotInit is owned by the collection
+		// (as its LowerLevelInit), which releases it once no snapshot of
+		// the collection uses it any more.
 
 		return ss, erro
 	}
